@@ -133,9 +133,41 @@ def run_drv(work, binary, tier, seed, tag, only=None):
         open(of, "w").write("".join("%s\t%s\n" % (i, b) if b else i + "\n" for i, b in sorted(only.items())))
         args += ["-only", of]
     t0 = time.time()
-    out = run_driver(binary, args, timeout=3000)
+    cursor = work.path("cursor_%s.txt" % tag)
+    killers = []     # inputs that terminate the process (twice more, each alone)
+    while True:
+        extra = ["-cursor", cursor] + (["-except", "\n".join(k["id"] for k in killers)] if killers else [])
+        try:
+            out = run_driver(binary, args + extra, timeout=3000)
+            break
+        except Infra as e:
+            msg = str(e)
+            died = "fatal error:" in msg or "panic:" in msg or "goroutine " in msg
+            if not died or not os.path.exists(cursor) or len(killers) >= 12:
+                raise
+            kid = open(cursor).read().strip()
+            if not kid or any(k["id"] == kid for k in killers):
+                raise
+            log("the driver process was terminated while feeding %s; feeding it alone, twice" % kid)
+            again = 0
+            for n in range(2):
+                of = work.path("killer_%s_%d.txt" % (tag, n))
+                open(of, "w").write(kid + "\n")
+                try:
+                    run_driver(binary, ["run", "-trace", work.path("killer_%s_%d.ndjson" % (tag, n)), "-tier", tier, "-seed", seed,
+                                        "-fixtures", FIXTURES, "-only", of], timeout=600)
+                except Infra as e2:
+                    if "fatal error:" in str(e2) or "panic:" in str(e2) or "goroutine " in str(e2):
+                        again += 1
+            if again < 2:
+                raise Infra("driver died once while feeding %s but not when fed alone:\n%s" % (kid, msg[-2000:]))
+            m = re.search(r"(fatal error: [^\n]*|panic: [^\n]*)", msg)
+            killers.append({"ev": "feed", "id": kid, "entry": kid.split("/")[0], "class": "process-killer", "outcome": "panicked",
+                            "stateKept": False, "status": 0, "alive": False,
+                            "detail": "the process was terminated: " + (m.group(1) if m else "see the driver's output"),
+                            "via": "c19drv process (3 of 3 executions ended abnormally)"})
     log("%s (%.1fs)" % (out.strip(), time.time() - t0))
-    return read_ndjson(tf)
+    return read_ndjson(tf) + killers
 
 
 def execute(work, binary, tier, seed, tag, only=None):
